@@ -2,8 +2,9 @@
 (***************************************************************************)
 (* Known-answer self-test of the Java module overrides in CryptoPrims.     *)
 (* Every vector is a named ASSUME (TLC reports the line of a false one);   *)
-(* the conjunction of all of them is also checked as the invariant AllOk   *)
-(* on the single state, i.e. once more from a TLC worker thread.           *)
+(* the conjunction of all of them (AllOk) is also checked through the      *)
+(* invariant Inv on the single state.  The vectors were produced by a      *)
+(* script; to add one, append a named ASSUME and list it in AllOk.         *)
 (*                                                                         *)
 (* Sources of the expected values: python hashlib (hashes), the BIP340     *)
 (* vectors in /repo/secp256k1/src/modules/schnorrsig/tests_impl.h, real    *)
